@@ -470,9 +470,10 @@ fn hist(w: &mut TraceWriter, args: &Args, rt: &tokio::runtime::Runtime) {
 // gate section
 
 const READ_OPS: [&str; 3] = ["open", "checkout_version", "refresh"];
-const WRITE_OPS: [&str; 15] = [
+const WRITE_OPS: [&str; 16] = [
     "append", "overwrite", "delete", "update", "merge_insert", "compact", "create_index", "optimize_indices",
     "add_column", "drop_column", "rename_column", "update_config", "delete_config", "restore", "commit_append",
+    "commit_detached",
 ];
 
 struct Setup {
@@ -486,7 +487,8 @@ struct Setup {
 /// commits v6 = v5's manifest with the chosen flag bits added.
 async fn gate_setup(dir: &PathBuf, rbits: u64, wbits: u64) -> lance::Result<Setup> {
     let uri = dir.join("t").to_str().unwrap().to_string();
-    let p = wparams(WriteMode::Create, false, None);
+    let mut p = wparams(WriteMode::Create, false, None);
+    p.enable_v2_manifest_paths = true; // detached commits need V2 manifest names
     let mut d = InsertBuilder::new(uri.as_str())
         .with_params(&p)
         .execute(vec![batch(&cols(), &[vec![1, 10], vec![2, 20]])])
@@ -595,6 +597,8 @@ async fn gate_op(op: &str, h: Dataset, s: &Setup) -> (String, String, i64) {
             Ok(mut old) => res_of(&old.restore().await),
         },
         "commit_append" => res_of(&CommitBuilder::new(d).execute(s.prepared.clone()).await),
+        // a detached commit (does not become the latest version) built on the handle's version
+        "commit_detached" => res_of(&CommitBuilder::new(d).with_detached(true).execute(s.prepared.clone()).await),
         // read operations ---------------------------------------------------------------------
         "open" => {
             let r = Dataset::open(&s.uri).await;
